@@ -80,7 +80,9 @@ def fresh_value(st, t: T, name: str, fresh=False):
         if t.kw["maxlen"] is not None:
             st.assume(n <= t.kw["maxlen"])
         get = elem_getter(st, elem, name)
-        return st.alloc(ListObj(length=n, get=get, elem=elem, fresh=fresh))
+        lo = ListObj(length=n, get=get, elem=elem, fresh=fresh)
+        lo.arr = getattr(get, "arr", None)
+        return st.alloc(lo)
     if k == "matrix":
         elem = t.kw["elem"]
         rows = z3.Int(fresh_name(name + ".rows"))
@@ -108,7 +110,9 @@ def elem_getter(st, elem: T, name: str):
     """Getter idx -> element for a fresh symbolic list of `elem`."""
     if elem.kind in _SORTS:
         arr = z3.Array(fresh_name(name + ".arr"), z3.IntSort(), _SORTS[elem.kind])
-        return lambda j, arr=arr: z3.Select(arr, j if z3.is_expr(j) else z3.IntVal(j))
+        g = lambda j, arr=arr: z3.Select(arr, j if z3.is_expr(j) else z3.IntVal(j))
+        g.arr = arr
+        return g
     if elem.kind == "opt" and elem.kw["t"].kind in _SORTS:
         arr = z3.Array(fresh_name(name + ".arr"), z3.IntSort(), _SORTS[elem.kw["t"].kind])
         nn = z3.Array(fresh_name(name + ".isnone"), z3.IntSort(), z3.BoolSort())
